@@ -1,6 +1,6 @@
 (* C09: a small concrete codec satisfying the laws the theorems assume (so that they are not vacuous),
    and concrete runs of the executable toy instance used as witnesses. *)
-From AV Require Import Lib.Base Generated.DecodeGen Model.Decode Proofs.DecodeBound.
+From AV Require Import Lib.Base Generated.DecodeGen Model.Decode Proofs.DecodeBound Proofs.DecodeProgress.
 From Coq Require Import ZifyBool ZifyN.
 Ltac Zify.zify_post_hook ::= Z.to_euclidean_division_equations.
 Open Scope N_scope.
@@ -48,6 +48,32 @@ Proof.
   exact (bounded_memory bytes ic_new ic_step ic_avail ic_eof ic_flush (fun m => m) ic_cap id_mono f c t len enc evs y os Hf Hl He Hr).
 Qed.
 
+Lemma take_nil (m : N) (l : bytes) : m <> 0 -> take m l = [] -> l = [].
+Proof.
+  unfold take. destruct (lenN l <=? m); [auto|]. intros Hm. destruct l; [auto|].
+  destruct (N.to_nat m) eqn:E; [lia|]. cbn. discriminate.
+Qed.
+
+Lemma ic_avail_law : forall h x m h', ic_step h x m = Some (Some (h', [])) -> ic_avail h' = false.
+Proof.
+  intros h x m h'. unfold ic_step, ic_avail. destruct (m =? 0) eqn:E.
+  - intros [= <- _]. reflexivity.
+  - intros [= <- Ht]. apply take_nil in Ht; [|lia]. rewrite Ht. unfold drop.
+    replace (lenN (@nil N) <=? m) with true by (symmetry; apply N.leb_le; cbn; lia). reflexivity.
+Qed.
+
+Lemma progress_idcap : forall f c t len enc evs (y : ic_sys) os,
+  1 <= c_limit c -> ic_run f (ic_init c t len enc) evs = (y, os) ->
+  rexn (re (core y)) = None -> connected (pr (core y)) = true -> buf (re (core y)) = [] ->
+  has_more (pr (core y)) = false /\ rpaused (pr (core y)) = false /\ tpaused (pr (core y)) = false.
+Proof. exact (progress_all bytes ic_new ic_step ic_avail ic_eof ic_flush ic_avail_law). Qed.
+
+Lemma reaches_eof_idcap : forall f c t len enc evs (y : ic_sys) os,
+  1 <= c_limit c -> ic_run f (ic_init c t len enc) evs = (y, os) ->
+  connected (pr (core y)) = false -> buf (re (core y)) = [] ->
+  reof (re (core y)) = true \/ rexn (re (core y)) <> None.
+Proof. exact (reaches_eof_all bytes ic_new ic_step ic_avail ic_eof ic_flush ic_avail_law). Qed.
+
 (* ---- witnesses on the executable toy instance ------------------------------------------------- *)
 Definition toy_run (fuel : nat) (y : toy_sys) (evs : list event) : toy_sys * list obs :=
   run toy_zh toy_hnew toy_hstep toy_havail toy_heof toy_hflush fuel y evs.
@@ -61,3 +87,25 @@ Lemma bomb_witness :
   rsize (re (core y)) = 12 /\ tpaused (pr (core y)) = true /\ has_more (pr (core y)) = true.
 Proof. vm_compute. repeat split. Qed.
 
+
+(* the histories that used to refute progress / end-of-body (before dc85988, 72e5a25, 497a2a6) now end well *)
+Definition w_seg1 : bytes := [51; 13; 10; 97; 98; 99; 13; 10].
+Definition w_seg2 : bytes := [51; 13; 10; 100; 101; 102; 13; 10; 48; 13; 10; 13; 10].
+Definition w_stale_events : list event := [EvData w_seg1; EvOp OpReadAny; EvOp OpReadAny; EvData w_seg2; EvOp OpReadAny].
+Lemma stale_pause_regression :
+  snd (toy_run 100 (toy_init 1 true 8190 8190 125 true PChunked 0 0) w_stale_events) =
+  [ONone; ORes (RData [97; 98; 99]); ORes RBlocked; ORes (RData [100; 101; 102]); ORes (RData [])].
+Proof. vm_compute. reflexivity. Qed.
+
+Definition w_lost_events : list event := [EvData w_bomb; EvClose; EvOp OpReadAny; EvOp OpReadAny; EvOp (OpRead 70000); EvOp OpReadAny].
+Lemma lost_at_close_regression :
+  let r := toy_run 1000 (toy_init 1 true 8190 8190 125 false PLength 9 1) w_lost_events in
+  last (snd r) ONone = ORes (RData []) /\ lenN (delivered (re (core (fst r)))) = 600 /\ reof (re (core (fst r))) = true.
+Proof. vm_compute. repeat split. Qed.
+
+Definition w_rewait_seg1 : bytes := [52; 13; 10; 31; 2; 65].
+Definition w_rewait_seg2 : bytes := [0; 13; 10; 49; 13; 10; 255; 13; 10; 48; 13; 10; 13; 10].
+Definition w_rewait_events : list event := [EvData w_rewait_seg1; EvOp OpReadAny; EvOp OpReadAny; EvData w_rewait_seg2].
+Lemma rewait_regression :
+  last (snd (toy_run 100 (toy_init 64 true 8190 8190 125 true PChunked 5 1) w_rewait_events)) ONone = ORes (RErr EContentEncoding).
+Proof. vm_compute. reflexivity. Qed.
